@@ -1,5 +1,36 @@
-import Driver.Proto
-/-! C19 handler (not implemented yet). -/
+import Driver.Gql
+import ThunderModel.Gql.Prune
+/-! C19 handler: executor and reference on the annotated query, reference on the pruned query,
+and the pruned query itself. -/
+open Lean TM TM.Gql Driver.Gql
+
 namespace Driver.C19
-def handle : Handler := fun _ => throw "C19: no model yet"
+
+def encDirs (d : Dirs) : Json :=
+  Json.mkObj [("skip", match d.skip with | some b => (b : Json) | none => Json.null),
+              ("incl", match d.incl with | some b => (b : Json) | none => Json.null)]
+
+mutual
+partial def encSel : Sel → Json
+  | .mk a n d sub => Json.mkObj [("a", (a : Json)), ("n", (n : Json)), ("d", encDirs d),
+      ("sub", match sub with | some s => encSelSet s | none => Json.null)]
+partial def encSelSet : SelSet → Json
+  | .mk sels frags => Json.mkObj [("sels", Json.arr (sels.map encSel).toArray), ("frags", Json.arr (frags.map encFrag).toArray)]
+partial def encFrag : Frag → Json
+  | .mk on d set => Json.mkObj [("on", (on : Json)), ("d", encDirs d), ("set", encSelSet set)]
+end
+
+def handle : Handler := fun req => do
+  let op ← str req "op"
+  match op with
+  | "exec" =>
+    let σ ← decSchema (← field req "schema")
+    let root ← nat req "root"
+    let data ← decVal (← field req "data")
+    let q ← decSelSet (← field req "query")
+    let fuel ← nat req "fuel"
+    pure <| Json.mkObj [("exec", encRes (execute σ fuel root data q)), ("ref", encRes (reference σ fuel root data q)),
+      ("refPruned", encRes (reference σ fuel root data q.prune)), ("pruned", encSelSet q.prune)]
+  | _ => throw s!"C19: unknown op {op}"
+
 end Driver.C19
